@@ -218,3 +218,65 @@ Theorem c04_decoded_ops_are_api : forall fuel next l ops, dec_hops fuel next l =
   forallb (hop_wf Z) ops = true.
 Proof. exact dec_hops_wf. Qed.
 Print Assumptions c04_decoded_ops_are_api.
+
+(* ==== the code IS the model (third tie to the source) ====
+   Gen/HeapCode.v is produced on every run by the Go -> Gallina translator gen/trans*.go from the function BODIES of
+   heapz/adjustment.go (swap, up, down, fix, build) and heapz/slice.go (type Slice: Push, Pop, Peek, Len, Remove, Fix).
+   Elements are Z; the comparison is a parameter / Record field [cmp : Z -> Z -> bool]; the swap hook is instantiated
+   with the generated g_swap (slice.go passes swap[T]).  Every generated function equals the hand-written model of
+   Model/Heap.v on which the theorems above rest — layer 2, "the loops as the Go code runs them" (gdown / gup_go /
+   gfix / gbuild over lessL / swapL: int indices, every access checked, fuel), and layer 3, the Slice operations —
+   for EVERY comparison function (no order axioms), every slice, every index (up and fix: every index >= 0 — the sift-up
+   loop is the same function for `if parent == j { break }` and for `for j > 0`, which independent refactorings prefer,
+   exactly on the non-negative indices, the only ones a caller passes; the Slice methods need no premise).
+   [cv f]: Ok x -> Ret (f x), Panic -> Panic, NoFuel -> NoFuel; [with_values s v]: s with Values := v; [st_opt]: Go
+   returns (value, ok), the model an option.  Loops: equal to the model's loop for EVERY fuel (build: as soon as the
+   fuel covers its len/2 rounds, the model's outer loop being structural); and with any fuel >= the model's own
+   (fuelL s = S (length s)) equal to the model's downL / upL / fixL / buildL where the code calls them, and the Slice
+   methods equal to sl_push / sl_pop / sl_peek / sl_remove / sl_fix outright.  [sl_*_f fuel] (Proofs/HeapCode.v) are
+   the model's Slice operations with the fuel of their loops made a parameter. *)
+From V Require Import Lib.GoSem Gen.HeapCode Proofs.HeapCode Run.C04Code.
+Local Open Scope Z_scope.
+
+Theorem c04_code_is_model :
+  (forall s i j, g_swap s i j = cv id (swapL Z s i j)) /\
+  (forall cmp fuel s i0 n, g_down fuel s cmp g_swap i0 n = cv id (gdown (list Z) (lessL Z cmp) (swapL Z) fuel s i0 n)) /\
+  (forall cmp fuel s j, 0 <= j -> g_up fuel s cmp g_swap j = cv id (gup_go (list Z) (lessL Z cmp) (swapL Z) fuel s j)) /\
+  (forall cmp fuel s i n, 0 <= i -> g_fix fuel s cmp g_swap i n = cv id (gfix (list Z) (lessL Z cmp) (swapL Z) fuel s i n)) /\
+  (forall cmp fuel s, (Z.to_nat (Zlen s / 2) < fuel)%nat ->
+     g_build fuel s cmp g_swap = cv id (gbuild (list Z) (lessL Z cmp) (swapL Z) fuel s (Zlen s))) /\
+  (forall cmp fuel s i n, (n <= length s)%nat -> (fuelL Z s <= fuel)%nat ->
+     g_down fuel s cmp g_swap (Z.of_nat i) (Z.of_nat n) = cv id (downL Z cmp s (Z.of_nat i) (Z.of_nat n))) /\
+  (forall cmp fuel s j, (j < length s)%nat -> (fuelL Z s <= fuel)%nat ->
+     g_up fuel s cmp g_swap (Z.of_nat j) = cv id (upL Z cmp s (Z.of_nat j))) /\
+  (forall cmp fuel s i n, (n <= length s)%nat -> (i < n)%nat -> (fuelL Z s <= fuel)%nat ->
+     g_fix fuel s cmp g_swap (Z.of_nat i) (Z.of_nat n) = cv id (fixL Z cmp s (Z.of_nat i) (Z.of_nat n))) /\
+  (forall cmp fuel s, (fuelL Z s <= fuel)%nat -> g_build fuel s cmp g_swap = cv id (buildL Z cmp s)) /\
+  (forall fuel s x, g_Slice_Push fuel s x = cv (with_values s) (sl_push_f (Slice_cmp s) fuel (Slice_Values s) x)) /\
+  (forall fuel s, g_Slice_Pop fuel s = cv (st_opt s) (sl_pop_f (Slice_cmp s) fuel (Slice_Values s))) /\
+  (forall fuel s i, g_Slice_Remove fuel s i = cv (st_opt s) (sl_remove_f (Slice_cmp s) fuel (Slice_Values s) i)) /\
+  (forall fuel s i, g_Slice_Fix fuel s i = cv (with_values s) (sl_fix_f (Slice_cmp s) fuel (Slice_Values s) i)) /\
+  (forall fuel s x, (fuelL Z (Slice_Values s ++ [x]) <= fuel)%nat ->
+     g_Slice_Push fuel s x = cv (with_values s) (sl_push Z (Slice_cmp s) (Slice_Values s) x)) /\
+  (forall fuel s, (fuelL Z (Slice_Values s) <= fuel)%nat ->
+     g_Slice_Pop fuel s = cv (st_opt s) (sl_pop Z (Slice_cmp s) (Slice_Values s))) /\
+  (forall s, g_Slice_Peek s = cv opt_res (sl_peek Z (Slice_Values s))) /\
+  (forall s, g_Slice_Len s = Ret (Zlen (Slice_Values s))) /\
+  (forall fuel s i, (fuelL Z (Slice_Values s) <= fuel)%nat ->
+     g_Slice_Remove fuel s i = cv (st_opt s) (sl_remove Z (Slice_cmp s) (Slice_Values s) i)) /\
+  (forall fuel s i, (fuelL Z (Slice_Values s) <= fuel)%nat ->
+     g_Slice_Fix fuel s i = cv (with_values s) (sl_fix Z (Slice_cmp s) (Slice_Values s) i)).
+Proof.
+  exact (conj code_swap (conj code_down (conj code_up (conj code_fix (conj code_build (conj code_down_model
+        (conj code_up_model (conj code_fix_model (conj code_build_model (conj code_Push_fuel (conj code_Pop_fuel
+        (conj code_Remove_fuel (conj code_Fix_fuel (conj code_Push (conj code_Pop (conj code_Peek (conj code_Len
+        (conj code_Remove code_Fix)))))))))))))))))).
+Qed.
+Print Assumptions c04_code_is_model.
+
+(* the case interpreter of the correspondence run, executed through the generated functions (Run/C04Code.v: Slice
+   cases, i.e. kind 0; FromSlice = the generated heapify loop), gives the output of `entry` on every case: the
+   differential run of entry 0 against the compiled package is, for Slice, a run of the generated code *)
+Theorem c04_entry_runs_generated_code : forall sub args, entry_code sub args = entry sub args.
+Proof. exact entry_code_is_entry. Qed.
+Print Assumptions c04_entry_runs_generated_code.
